@@ -216,9 +216,12 @@ contract(SOL + "root_development.py", "root_development",
                      NewCond_Germination="Bool", NewCond_rCor="Real", NewCond_Tpot="Real", NewCond_zGW="Real", gdd="Real", growing_season="Bool",
                      water_table_presence="Int"),
          ghost={"n": "Int"},
-         requires=[],
+         # the state facts the proof of the real body (root_development#body) starts from are obligations of the daily step at its call site
+         requires=[("root_state_tr_ratio_nonneg", "NewCond_TrRatio >= 0"), ("root_state_depth_nonneg", "NewCond_Zroot >= 0"), ("root_degree_days_nonneg", "gdd >= 0"),
+                   ("root_state_rcor_nonneg", "NewCond_rCor >= 0")],
          returns=[("Zroot", "Real"), ("rCor", "Real")],
          ensures=[("C05.root_trusted_range", "implies(not growing_season, Zroot == 0)"),
+                  ("C05.root_trusted_nonneg", "Zroot >= 0"),
                   ("C05.root_trusted_rcor", "rCor >= 0"),
                   ("C05.root_trusted_depth", "max(Zroot, Crop.Zmin) + 0.005 <= prof.dzsum[n-1]")],
          assigns=[],
